@@ -2,6 +2,7 @@
 import FontVerif.Model.Layout
 import FontVerif.Model.LayoutLookup
 import FontVerif.Model.LayoutDevice
+import FontVerif.Model.LayoutMarkLig
 import Std.Data.HashMap
 namespace FontVerif.Drv.C16
 open FontVerif FontVerif.Layout FontVerif.HandLayout
@@ -113,6 +114,26 @@ def showMarkBase (t : MarkBase Nat) : String :=
   showCoverage t.markCov ++ " ; " ++ showCoverage t.baseCov ++ " ; " ++ toString t.classCount ++ " ; " ++
     joinNats (t.marks.flatMap (fun p => [p.1, p.2])) ++ " ; " ++
     " , ".intercalate (t.bases.map (fun r => joinNats (r.map (fun a => a.getD 0))))
+
+/-- components of `add_ligature_components_directly`: `cnt (name anchor)…` repeated -/
+def parseComps (fuel : Nat) (xs : List Nat) : Option (List (List (Nat × Nat))) :=
+  match fuel, xs with
+  | _, [] => some []
+  | 0, _ => none
+  | fuel + 1, cnt :: rest =>
+    if 2 * cnt ≤ rest.length then
+      match pairs (rest.take (2 * cnt)), parseComps fuel (rest.drop (2 * cnt)) with
+      | some m, some more => some (m.foldl (fun acc e => bmInsert e.1 e.2 acc) [] :: more)
+      | _, _ => none
+    else none
+
+def parseMlOp (xs : List Nat) : Option (MlOp Nat) :=
+  match xs with
+  | [0, g, n, a] => some (.mark g n a)
+  | 1 :: g :: n :: k :: rest =>
+    if rest.length = k then some (.lig g n (rest.map (fun a => if a = 0 then none else some a))) else none
+  | 2 :: g :: rest => (parseComps (rest.length + 1) rest).map (.direct g)
+  | _ => none
 
 def handle (cmd : String) (args : List String) : Option String :=
   match cmd, (splitBar args).mapM nats? with
@@ -288,6 +309,28 @@ def handle (cmd : String) (args : List String) : Option String :=
       (match devIter dev with
        | .val out => joinNats (out.map (fun x => (x + 128).toNat))
        | .trap => "trap"))
+  | "ml.build", some ops =>
+    -- `MarkToLigBuilder`: `0 g name anchor` = insert_mark, `1 g name k a…` = insert_ligature (0 = None),
+    -- `2 g (cnt (name anchor)…)…` = add_ligature_components_directly; then `build`
+    (ops.mapM parseMlOp).map (fun ops =>
+      let step := fun (st : Option (MarkToLig Nat) × List String) (op : MlOp Nat) =>
+        match st.1 with
+        | none => st
+        | some b =>
+          match op with
+          | .mark g n a =>
+            let r := b.marks.insert g n a
+            (some { b with marks := r.1 }, st.2 ++ [match r.2 with | .inl id => "o" ++ toString id | .inr n => "e" ++ toString n])
+          | op => (b.apply op, st.2)
+      let (b, res) := ops.foldl step (some MarkToLig.empty, [])
+      match b.bind MarkToLig.build with
+      | none => "trap"
+      | some t =>
+        showCoverage t.markCov ++ " ; " ++ showCoverage t.ligCov ++ " ; " ++ toString t.classCount ++ " ; " ++
+          joinNats (t.marks.flatMap (fun p => [p.1, p.2])) ++ " ; " ++
+          (if t.ligs.isEmpty then "-" else " / ".intercalate (t.ligs.map (fun comps =>
+            if comps.isEmpty then "-" else " , ".intercalate (comps.map (fun r => joinNats (r.map (fun a => a.getD 0))))))) ++
+          " | " ++ (if res.isEmpty then "-" else " ".intercalate res))
   | "mb.split", some (mctbl :: [classCount] :: pts :: marks :: rows) =>
     -- `split_off_mark_pos` for every range of the given split points; mark record `i` = (class,
     -- anchor id), base row = anchor ids per class with 0 = null
